@@ -93,7 +93,22 @@ bool splinetable<Alloc>::write_key(const char* key, const T& value){
 		//document", when no such rules appear to exist. If this was intended to 
 		//refer to section 4.1.2.1 then cfitsio's behavior of allowing long 
 		//keywords (not split by spaces or periods) at all is non-conforming anyway. 
+		//"HIERARCH ", the key, "= '" and "'" must fit on an 80 character card, and
+		//cfitsio cannot write even an empty value for a key of more than 66 characters
+		if(keylen-1>66)
+			throw std::runtime_error("Key is too long to be stored as a FITS keyword (key was '"+
+									 std::string(key)+"')");
+		//cfitsio strips leading and trailing blanks from keyword names
+		if(key[0]==' ' || key[keylen-2]==' ')
+			throw std::runtime_error("Long (HIERARCH) FITS header keywords must not "
+									 "begin or end with a blank (key was '"+
+									 std::string(key)+"')");
 		for(size_t i=0; i<keylen-1; i++){
+			//FITS headers are restricted to printable ASCII text
+			if((unsigned char)key[i]<0x20 || (unsigned char)key[i]>0x7E)
+				throw std::runtime_error("FITS header keywords must consist of printable "
+										 "ASCII characters (key was '"+
+										 std::string(key)+"')");
 			if(key[i]=='=')
 				throw std::runtime_error("Standard (short) FITS header keywords must not "
 										 "contain '=' characters (key was '"+
@@ -113,6 +128,11 @@ bool splinetable<Alloc>::write_key(const char* key, const T& value){
 		return(false);
 	std::string valuedata=ss.str();
 	size_t valuelen = valuedata.size() + 1;
+	//FITS headers are restricted to printable ASCII text; anything else would be lost on writing
+	for(size_t i=0; i<valuedata.size(); i++){
+		if((unsigned char)valuedata[i]<0x20 || (unsigned char)valuedata[i]>0x7E)
+			throw std::runtime_error("FITS header values must consist of printable ASCII characters");
+	}
 	//For normal (short) keys, we get up to 68 bytes of storage, but for longer keywords
 	//the 'HIERARCH Keyword Convention' kicks in and limits us further
 	//FITS represents a single quote inside a string by two, which count against the space on the card
